@@ -73,6 +73,16 @@ func (e *Executor) setPlanner(p *Planner, schema *graphql.Schema) {
 	e.Executors[IntrospectionClientName] = introspectionClient
 }
 
+// getExecutorClient looks a service up under the lock setPlanner writes the
+// map under: the schema poller replaces the introspection client on every tick
+// while requests are in flight.
+func (e *Executor) getExecutorClient(service string) (ExecutorClient, bool) {
+	e.syncer.plannerMu.RLock()
+	defer e.syncer.plannerMu.RUnlock()
+	client, ok := e.Executors[service]
+	return client, ok
+}
+
 func fetchSchema(ctx context.Context, e ExecutorClient, metadata interface{}) (*QueryResponse, error) {
 	query, err := graphql.Parse(introspection.IntrospectionQuery, map[string]interface{}{})
 	if err != nil {
@@ -139,7 +149,7 @@ func (e *Executor) poll(ctx context.Context) error {
 
 func (e *Executor) runOnService(ctx context.Context, isRootPlan bool, service string, typName string, keys []interface{}, kind string, selectionSet *graphql.SelectionSet, metadata interface{}, planner *Planner) ([]interface{}, interface{}, error) {
 	// Execute query on specified service
-	executorClient, ok := e.Executors[service]
+	executorClient, ok := e.getExecutorClient(service)
 	if !ok {
 		return nil, nil, oops.Errorf("service %s not recognized", service)
 	}
